@@ -176,10 +176,16 @@ inductive Op (ρ : Type) where
   | edit (g : Kids ρ → Kids ρ)          -- a change somewhere below (see `Proofs/CacheForest.lean`: `Conservative`)
   | structural (g : Kids ρ → Kids ρ)    -- … through add_child / remove_child / replace_child of the root itself
   | run
+  | handRun (l : Nat) (clear : Bool)    -- child `l` is run by hand, outside a run of the root; `clear`: that drops the
+                                        -- root's record (fixes/C05-hand-run-drops-ancestor-caches.patch; /repo: no)
 
 def stepC {ρ} [DecidableEq ρ] (S : Sem ρ) (c : KCfg) (fuel : Nat) (r : Root ρ) : Op ρ → Option (Root ρ × Option (List (Nat × ρ)))
   | .edit g => some ({ r with kids := g r.kids }, none)
   | .structural g => some ({ kids := g r.kids, cache := none }, none)
+  | .handRun l clear =>
+    match runKid S c fuel [] r.kids l with
+    | none => none
+    | some (k1, _) => some ({ kids := k1, cache := if clear then none else r.cache }, none)
   | .run =>
     if r.hit c then some (r, some r.outs)
     else
